@@ -196,12 +196,13 @@ class ModuleVistor(NodeVisitor):
                 raise self.SkipNode()
 
     def visit_Module(self, node: ast.Module) -> None:
-        assert self.module.docstring is None
         Parentage().visit(node)
 
         self.builder.push(self.module, 0)
         doc_node = get_docstring_node(node)
-        if doc_node is not None:
+        # The docstring might already have been set by a "module.__doc__ = ..." assignment in a module
+        # that was processed earlier: that assignment takes effect after the import, so it wins.
+        if doc_node is not None and self.module.docstring is None:
             self.module.setDocstring(doc_node)
             epydoc2stan.extract_fields(self.module)
 
